@@ -22,40 +22,19 @@ Theorem C10_bary_subtriangles :
 Proof. exact bary_subtriangles. Qed.
 Print Assumptions C10_bary_subtriangles.
 
-From BV Require Import Bary.FindingP1.
-(* ---- P1 ------------------------------------------------------------------------------------------------------
-   FINDING on the unchanged tree: the shipped table is the right table shifted by one sub-triangle.
-   After the repair docs/fixes/c10_p1_bary_table.diff the two theorems marked (*finding*) stop compiling and are
-   replaced by C10_p1_table / C10_p1_pointwise as given in docs/fixes/c10_verif_after_p1_fix.diff. *)
-Theorem C10_p1_table_refuted : (*finding*)
-  p1_table_status = false /\
-  exists a j v, (a < 3)%nat /\ (j < 6)%nat /\ (v < 3)%nat /\
-    p1_entry a j v == 1 # 3 /\ p1_shape a (sub_vertex j v) == 1 # 2 /\
-    ~ p1_entry a j v == p1_shape a (sub_vertex j v).
-Proof. exact p1_table_refuted. Qed.
-Print Assumptions C10_p1_table_refuted.
+(* ---- P1: coeffs[a][j][v] = phi_a(vertex v of sub-triangle j), complete sweep of the regenerated table ---- *)
+Theorem C10_p1_table :
+  forall a j v, (a < 3)%nat -> (j < 6)%nat -> (v < 3)%nat -> p1_entry a j v == p1_shape a (sub_vertex j v).
+Proof. exact (p1_table_correct (eq_refl : p1_table_status = true)). Qed.
+Print Assumptions C10_p1_table.
 
-Theorem C10_p1_pointwise_refuted : (*finding*)
-  exists (c : nat -> Q) (j : nat) (st : pt), (j < 6)%nat /\ ~ p1_fun c (sub_map j st) == p1_bary_fun c j st.
-Proof. exact p1_pointwise_refuted. Qed.
-Print Assumptions C10_p1_pointwise_refuted.
+(* pointwise agreement on every sub-triangle, for every coefficient vector and every point *)
+Theorem C10_p1_pointwise :
+  forall (c : nat -> Q) (j : nat) (st : pt), (j < 6)%nat -> p1_fun c (sub_map j st) == p1_bary_fun c j st.
+Proof. exact (p1_pointwise (eq_refl : p1_table_status = true)). Qed.
+Print Assumptions C10_p1_pointwise.
 
-(* what the shipped table is, exactly: row j holds the values of sub-triangle j-1 (mod 6) ... *)
-Theorem C10_p1_table_shifted :
-  forall a j v, (a < 3)%nat -> (j < 6)%nat -> (v < 3)%nat ->
-    p1_entry a j v == p1_shape a (sub_vertex ((j + 5) mod 6) v).
-Proof. exact p1_table_shifted. Qed.
-Print Assumptions C10_p1_table_shifted.
-
-(* ... so the barycentric form reproduces, on sub-triangle j, the coarse function of sub-triangle j-1,
-   for every coefficient vector and every point *)
-Theorem C10_p1_pointwise_shifted :
-  forall (c : nat -> Q) (j : nat) (st : pt), (j < 6)%nat ->
-    p1_bary_fun c j st == p1_fun c (sub_map ((j + 5) mod 6) st).
-Proof. exact p1_pointwise_shifted. Qed.
-Print Assumptions C10_p1_pointwise_shifted.
-
-(* the property restricted to what holds on the unchanged tree: the representation still reproduces constants *)
+(* the representation reproduces constants *)
 Theorem C10_p1_partition_of_unity :
   forall j v, (j < 6)%nat -> (v < 3)%nat -> p1_entry 0 j v + p1_entry 1 j v + p1_entry 2 j v == 1.
 Proof. exact p1_partition_of_unity. Qed.
@@ -162,16 +141,26 @@ Proof.
 Qed.
 Print Assumptions C10_dual0_cells.
 
-From BV Require Import Bary.FindingDual0.
-(* FINDING on the unchanged tree: with truncate_at_segment_edge=True the guard indexes the barycentric support array
-   with a coarse face number and drops the entries of faces whose index/6 is not in the segment *)
-Theorem C10_dual0_truncate_refuted : (*finding*)
-  dual0_guard_uses_coarse_support = false /\
-  exists (sup : list nat) (g2l : list (list (nat * nat))),
-    (forall dl f v, In dl g2l -> In (f, v) dl -> mem f sup = true) /\ g2l = [[(5, 0)%nat]] /\
-    dual0_entries true sup g2l = Some [].
-Proof. exact dual0_truncate_refuted. Qed.
-Print Assumptions C10_dual0_truncate_refuted.
+(* the guard of the dual0 entries tests the coarse support (regenerated from the source) ... *)
+Theorem C10_dual0_guard : dual0_guard_uses_coarse_support = true.
+Proof. exact (eq_refl : dual0_guard_uses_coarse_support = true). Qed.
+Print Assumptions C10_dual0_guard.
+
+(* ... hence DUAL0 is the indicator of the dual cell for both truncation modes *)
+Theorem C10_dual0_cells_all :
+  forall (truncate : bool) (sup : list nat) (g2l : list (list (nat * nat))),
+    (forall dl f v, In dl g2l -> In (f, v) dl -> mem f sup = true) ->
+    exists l, dual0_entries truncate sup g2l = Some l /\
+      forall t, In t l <->
+        exists d dl f v fn s, nth_error g2l d = Some dl /\ In (f, v) dl /\ index_of f sup = Some fn /\
+                              In s (nth v dual0_subtris []) /\ t = ((6 * fn + s)%nat, d, 1).
+Proof.
+  exact (fun truncate sup g2l Hwf =>
+           dual0_entries_exact truncate sup g2l
+             (fun dl f v Hdl Hfv => conj (Hwf dl f v Hdl Hfv)
+                (dual0_guard_passes truncate sup f (Hwf dl f v Hdl Hfv) (or_introl (eq_refl : dual0_guard_uses_coarse_support = true))))).
+Qed.
+Print Assumptions C10_dual0_cells_all.
 
 (* DUAL1, hand model of the construction loop, for every grid (any valence) and both truncation modes: every entry
    written for the dof of coarse element E is  1 at a listed "barycentre" dof of E,  1/2 at a dof that IS the midpoint
@@ -187,10 +176,7 @@ Theorem C10_dual_nodal_values_partial :
 Proof. exact dual1_entries_sound. Qed.
 Print Assumptions C10_dual_nodal_values_partial.
 
-From BV Require Import Bary.FindingDual1.
-(* FINDING on the unchanged tree: the "1 at the barycentre" list of dual1 names the six edge-midpoint dofs *)
-Theorem C10_dual1_centre_refuted : (*finding*)
-  dual1_centre_status = false /\ dual1_centre_is_midpoints = true /\
-  exists n, In n dual1_centre_dofs /\ dof_sym n = BMid 0.
-Proof. exact dual1_centre_refuted. Qed.
-Print Assumptions C10_dual1_centre_refuted.
+(* the "1 at the barycentre" list of dual1 names exactly the six dofs located at the barycentre *)
+Theorem C10_dual1_centre : same_set dual1_centre_dofs (all_dofs_of BCentre) = true.
+Proof. exact (eq_refl : dual1_centre_status = true). Qed.
+Print Assumptions C10_dual1_centre.
